@@ -97,4 +97,68 @@ theorem reopen_data (f : File) (h : WFFin f) : (reopen f).map (·.1) = some (sha
   simp only [reopen, openLeaseOffset_wf f h, Option.map_some, readShareData_eq, shareData, shareLength]
   congr 2; omega
 
+/-- layout facts of a mutable container whose extra-lease area ends the file -/
+structure MutWF (f : File) : Prop where
+  ext : 468 + Mutable.dataLength f ≤ Mutable.extOff f
+  full : Mutable.extOff f + 4 + Mutable.numExtra f * 92 = f.length
+  cnt : Mutable.numExtra f + 1 < 2 ^ 32
+
+theorem mut_after_count_write (f : File) (h : MutWF f) :
+    let f1 := pwrite f (Mutable.extOff f) (packU32 (Mutable.numExtra f + 1))
+    f1.length = f.length ∧ Mutable.extOff f1 = Mutable.extOff f ∧
+    Mutable.numExtra f1 = Mutable.numExtra f + 1 ∧ Mutable.dataLength f1 = Mutable.dataLength f ∧
+    mutData f1 = mutData f := by
+  have hext := h.ext
+  have hfull := h.full
+  have hl : (pwrite f (Mutable.extOff f) (packU32 (Mutable.numExtra f + 1))).length = f.length :=
+    length_pwrite_of_le _ _ _ (by simp; omega)
+  have he : Mutable.extOff (pwrite f (Mutable.extOff f) (packU32 (Mutable.numExtra f + 1))) = Mutable.extOff f := by
+    simp only [Mutable.extOff]
+    rw [pread_pwrite_lt f _ _ 92 8 (by simp only [Mutable.extOff] at hext; omega) (by omega)]
+  have hd : Mutable.dataLength (pwrite f (Mutable.extOff f) (packU32 (Mutable.numExtra f + 1))) = Mutable.dataLength f := by
+    simp only [Mutable.dataLength]
+    rw [pread_pwrite_lt f _ _ 84 8 (by omega) (by omega)]
+  refine ⟨hl, he, ?_, hd, ?_⟩
+  · show unpackBE (pread _ (Mutable.extOff (pwrite f (Mutable.extOff f) (packU32 (Mutable.numExtra f + 1)))) 4) = _
+    rw [he]
+    have := pread_pwrite_eq f (Mutable.extOff f) (packU32 (Mutable.numExtra f + 1))
+    rw [length_packU32] at this
+    rw [this]
+    exact unpackBE_packU32 _ h.cnt
+  · simp only [mutData, hd]
+    exact pread_pwrite_lt f _ _ 468 _ hext (by omega)
+
+theorem mut_after_record_write (f : File) (h : MutWF f) (rec : Bytes) (hr : rec.length = 92) :
+    let f1 := pwrite f (Mutable.extOff f) (packU32 (Mutable.numExtra f + 1))
+    let f2 := pwrite f1 (Mutable.extOff f + 4 + Mutable.numExtra f * 92) rec
+    mutLeasesReadable f2 = true ∧ mutData f2 = mutData f := by
+  intro f1 f2
+  obtain ⟨hl, he, hn, hd, hdat⟩ := mut_after_count_write f h
+  have hext := h.ext
+  have hfull := h.full
+  have hl1 : f1.length = f.length := hl
+  have hl2 : f2.length = f.length + 92 := by
+    show (pwrite f1 _ rec).length = _
+    rw [length_pwrite]; simp [hr]; omega
+  have he2 : Mutable.extOff f2 = Mutable.extOff f := by
+    show unpackBE (pread (pwrite f1 _ rec) 92 8) = _
+    rw [pread_pwrite_lt f1 _ _ 92 8 (by omega) (by omega)]; exact he
+  have hn2 : Mutable.numExtra f2 = Mutable.numExtra f + 1 := by
+    show unpackBE (pread (pwrite f1 _ rec) (Mutable.extOff f2) 4) = _
+    rw [he2, pread_pwrite_lt f1 _ _ (Mutable.extOff f) 4 (by omega) (by omega)]
+    have : Mutable.numExtra f1 = Mutable.numExtra f + 1 := hn
+    simp only [Mutable.numExtra] at this
+    have he1 : Mutable.extOff f1 = Mutable.extOff f := he
+    rw [he1] at this; exact this
+  have hd2 : Mutable.dataLength f2 = Mutable.dataLength f := by
+    show unpackBE (pread (pwrite f1 _ rec) 84 8) = _
+    rw [pread_pwrite_lt f1 _ _ 84 8 (by omega) (by omega)]; exact hd
+  refine ⟨?_, ?_⟩
+  · simp only [mutLeasesReadable, he2, hn2, hl2, decide_eq_true_eq]; omega
+  · simp only [mutData, hd2]
+    have hd1 : Mutable.dataLength f1 = Mutable.dataLength f := hd
+    rw [show pread f2 468 (Mutable.dataLength f) = pread f1 468 (Mutable.dataLength f) from
+      pread_pwrite_lt f1 _ _ 468 _ (by omega) (by omega)]
+    have := hdat; simp only [mutData] at this; rw [hd] at this; exact this
+
 end Tahoe.Storage.Crash
